@@ -83,6 +83,16 @@ def login_histories(run, rng, thorough):
         codec = codec_for(pv)
         secrets = []
         alive = []
+        import threading
+        # (a) a slow listener on the encryption request: the server's first
+        #     encrypted bytes are then already waiting when the client reads on
+        # (b) a consumer that takes part of the incoming stream through
+        #     connection.socket.recv and leaves the rest to the file object
+        slow_listener = hi % 2 == 0
+        mixed_consumer = hi % 3 != 1
+        sent_encrypted = threading.Event()
+        raw_blobs = {}
+        raw_got = {}
 
         def handler(io):
             step = hist[io.index] if io.index < len(hist) else 'accept'
@@ -102,13 +112,26 @@ def login_histories(run, rng, thorough):
                 io.drain(5.0)
                 return
             scripts.send_login_success(io, pv, codec)
+            sent_encrypted.set()
             kid, kp = codec.encode('cb_keep_alive', {'id': 99})
             io.send_frame(kid, kp)
-            fr = io.recv_frame(6.0)
-            ok = False
-            if fr is not None:
+            want = [99]
+            if mixed_consumer:
+                blob = bytes(rng.getrandbits(8) for _ in range(
+                    rng.choice((1, 15, 16, 17, 48, 300))))
+                raw_blobs[io.index] = blob
+                io.send_raw(blob)             # (encrypted like everything)
+                kid, kp = codec.encode('cb_keep_alive', {'id': 100})
+                io.send_frame(kid, kp)
+                want.append(100)
+            ok = True
+            for v in want:
+                fr = io.recv_frame(6.0)
+                if fr is None:
+                    ok = False
+                    break
                 nm, vals = codec.decode('play', fr[0], fr[1])
-                ok = nm == 'sb_keep_alive' and vals['id'] == 99
+                ok = ok and nm == 'sb_keep_alive' and vals['id'] == v
             alive.append(ok)
             did, dp = codec.encode('play_disconnect', {'reason': '"bye"'})
             io.send_frame(did, dp)
@@ -121,6 +144,31 @@ def login_histories(run, rng, thorough):
         try:
             conn = pc.make_connection(server.port, rec, early_listener=False,
                                       allowed_versions={pv})
+            from minecraft.networking.packets import clientbound as _cb
+            if slow_listener:
+                def dawdle(packet):
+                    import time
+                    sent_encrypted.wait(3.0)
+                    time.sleep(0.02)
+                conn.register_packet_listener(
+                    dawdle, _cb.login.EncryptionRequestPacket)
+            if mixed_consumer:
+                def take_raw(packet):
+                    if packet.keep_alive_id != 99:
+                        return
+                    idx = len(server.connections) - 1
+                    # wait for the blob length (the server picks it)
+                    pc.wait_for(lambda: idx in raw_blobs, 3.0)
+                    n = len(raw_blobs.get(idx, b''))
+                    got = b''
+                    while len(got) < n:
+                        chunk = conn.socket.recv(n - len(got))
+                        if not chunk:
+                            break
+                        got += chunk
+                    raw_got[idx] = got
+                conn.register_packet_listener(take_raw,
+                                              _cb.play.KeepAlivePacket)
             bad_wait = False
             for step in hist:
                 conn.connect()
@@ -149,6 +197,24 @@ def login_histories(run, rng, thorough):
                 run.violation('e2e/secret-reused', 'two logins of the same '
                               'Connection object used the same shared secret',
                               dict(w, secrets=[x.hex() for x in secrets]))
+            run.count('e2e.slow_encryption_request_listener',
+                      int(slow_listener))
+            if mixed_consumer:
+                run.count('e2e.mixed_recv_read_sessions', len(raw_got))
+                wrong = [i for i in raw_blobs
+                         if raw_got.get(i) != raw_blobs[i]]
+                if wrong:
+                    i = wrong[0]
+                    got = raw_got.get(i, b'')
+                    first = next((k for k, (a, b) in enumerate(
+                        zip(got, raw_blobs[i])) if a != b),
+                        min(len(got), len(raw_blobs[i])))
+                    run.violation('e2e/mixed-recv-read', 'bytes of the '
+                                  'incoming stream taken through connection.'
+                                  'socket.recv (the rest through the file '
+                                  'object) do not decrypt to what was sent',
+                                  dict(w, n=len(raw_blobs[i]),
+                                       n_got=len(got), first_wrong_byte=first))
             if alive != [True] * hist.count('accept'):
                 run.violation('e2e/session-broken', 'an accepted encrypted '
                               'login did not yield a working session',
